@@ -404,8 +404,14 @@ def check_geom(trsbox_geometry, c):
     vmin = oracle_min(g, a, b, Delta)
     vmax = -oracle_min(-g, a, b, Delta)
     best = max(abs(cc + vmin), abs(cc + vmax))
-    if val < best * (1 - 1e-6) - 1e-12 * scale:
+    # The code drops gradient components with |g_i| < ZERO_THRESH = 1e-14 (trust_region.py:645-646, "If g[i] = 0, never step
+    # along this direction"): it optimises g' = thresholded g, and |g.s - g'.s| <= ZT ||s||_1 <= ZT sqrt(n) Delta for every feasible s.
+    # Hence the absolute slack 2 ZT sqrt(n) Delta (stated in the evidence; it matters only when ||g||_inf is itself ~1e-14).
+    zt_slack = 2 * ZT * math.sqrt(len(g)) * Delta
+    if val < best * (1 - 1e-6) - 1e-12 * scale - zt_slack:
         return ("C13:geometry-not-global-max", "|c + g.s| = %.12g but the clipped-ray oracle reaches %.12g" % (val, best))
+    if val < best * (1 - 1e-6) - 1e-12 * scale:
+        return ("subthreshold", None)
     return None
 
 
@@ -478,8 +484,15 @@ def search_convex(ctx):
         if np.isfinite(dn):
             st["max_norm_over_Delta"] = max(st["max_norm_over_Delta"], dn / Delta)
         if not dn <= Delta * (1 + 1e-8):
-            ctx.fail("C13:%s-outside-ball" % name, "%s returned ||d|| = %.17g > Delta (1+1e-8), Delta = %.17g" % (name, dn, Delta),
-                     {"kind": "convex", "seed": [ctx.seed, 1302, i], "index": i})
+            if dn != dn and name == "ctrsbox_pgd" and not np.any(H):
+                sig = "C13:ctrsbox_pgd:nan-step-zero-hessian"
+                what = ("ctrsbox_pgd returns d = NaN when H = 0 (trust_region.py:186 L = ||H||_2 = 0, :204 (1/L)*gy); minimal: "
+                        "ctrsbox_pgd(np.zeros(1), np.array([1.0]), np.zeros((1,1)), [], 1.0)")
+            else:
+                sig = "C13:%s-outside-ball" % name
+                what = "%s returned ||d|| = %.17g > Delta (1+1e-8), Delta = %.17g" % (name, dn, Delta)
+            ctx.fail(sig, what, {"kind": "convex", "seed": [ctx.seed, 1302, i], "index": i,
+                                 "input": {"xopt": xopt.tolist(), "g": g.tolist(), "H": H.tolist(), "Delta": Delta, "sets": names}})
             if len(ctx.failures) >= 5:
                 break
     ctx.cov["search_convex_solvers"] = st
@@ -539,13 +552,16 @@ def search(ctx):
         for k in c["kinds"]:
             tags["kinds"][k] = tags["kinds"].get(k, 0) + 1
         res = check_geom(trsbox_geometry, c)
+        if res is not None and res[0] == "subthreshold":
+            tags["limited_by_ZERO_THRESH_on_g"] = tags.get("limited_by_ZERO_THRESH_on_g", 0) + 1
+            continue
         if res is not None:
             ctx.fail(res[0], res[1], {"kind": "geom", "case": cj(c)})
             if len(ctx.failures) >= 5:
                 break
     ctx.cov["search_trsbox_geometry"] = {"inputs": ncase, "grid": tags,
                                          "tolerances": {"box": "1e-12 max(1,|xbase|,|bound|,Delta)", "ball": "Delta(1+1e-8) + 4 eps |xbase|",
-                                                        "global max": "1e-6 relative + 1e-12 (|c|+|g|Delta)", "not worse": "1e-12 (|c|+|g|Delta)"}}
+                                                        "global max": "1e-6 relative + 1e-12 (|c|+|g|Delta) + 2 ZERO_THRESH sqrt(n) Delta (code ignores |g_i| < 1e-14; cases needing this term are counted as limited_by_ZERO_THRESH_on_g)", "not worse": "1e-12 (|c|+|g|Delta)"}}
     search_convex(ctx)
     search_tr_step(ctx)
 
@@ -557,7 +573,7 @@ def replay(payload):
     if kind == "geom":
         from dfols.trust_region import trsbox_geometry
         res = check_geom(trsbox_geometry, cfj(rp["case"], GEOM_KEYS))
-        if res is None:
+        if res is None or res[0] == "subthreshold":
             print("replay: property holds on this input now")
             return 0
         print("replay: still fails:", res[0], res[1])
